@@ -161,7 +161,9 @@ def handle (l : Line) : IO Unit := do
       Spec.FilterSem.denote re res i e && projs.flatten.all fun fld => Spec.FilterSem.inFixed excl fld res
     let keptS := Spec.FilterSem.keepIdx den res.values
     let flagS := if n == 0 then "n0" else b01 (!keptS.isEmpty)
-    IO.println s!"spec {id} pv={showHexList pv} test={bits n den} apply={showIdx keptS} flag={flagS}"
+    let allS := if n == 0 then "n0" else b01 ((List.range n).all den)
+    let anyS := if n == 0 then "n0" else b01 ((List.range n).any den)
+    IO.println s!"spec {id} pv={showHexList pv} test={bits n den} oob=00000 all={allS} any={anyS} apply={showIdx keptS} flag={flagS}"
 
 end Driver.C06
 
